@@ -83,6 +83,14 @@ def scratch_root():
         os.environ["VERIF_SCRATCH"] = root
         _OWN_SCRATCH = root
     os.makedirs(root, exist_ok=True)
+    # third-party temp files (wandb media/artifact dirs, torch, litdata) go to the scratch root too,
+    # so nothing is left under /tmp and everything is removed with the root
+    import tempfile
+
+    tmp = os.path.join(root, "tmp")
+    os.makedirs(tmp, exist_ok=True)
+    os.environ["TMPDIR"] = tmp
+    tempfile.tempdir = tmp
     return root
 
 
